@@ -256,6 +256,7 @@ int EGLPNUM_TYPENAME_ILLbasis_load (
 				basic++;
 				break;
 			case QS_ROW_BSTAT_LOWER:
+			case QS_ROW_BSTAT_UPPER:	/* status kept from when the row was a range row */
 				lp->vstat[j] = STAT_LOWER;
 				lp->nbaz[nonbasic] = j;
 				lp->vindex[j] = nonbasic;
